@@ -250,7 +250,8 @@ fn gen_unit(rng: &mut Rng, h: &Init, apps: &[App], oneshot: bool) -> (UnitEnv, S
     for _ in 0..3 { let (b, _) = response_body(rng, apps); u.pg.push_back(http_outcome(rng, cup, b, 6)); }
     u.plan = if rng.chance(1, 8) { None } else { Some(*rng.pick(&[1u32, 1, 2, 7])) };
     u.canstart = rng.pick(&["ok", "ok", "ok", "deferred", "denied"]).to_string();
-    u.progress = (0..rng.below(8)).map(|_| rng.below(17) as u32).collect();
+    // sixteenths; now and then beyond 100 % (an installer that accumulates in f32 overshoots): every value is forwarded as reported
+    u.progress = (0..rng.below(8)).map(|_| if rng.chance(1, 6) { 17 + rng.below(16) as u32 } else { rng.below(17) as u32 }).collect();
     u.results = (0..offered).map(|_| match rng.below(5) { 0 => AppRes::Failed(rng.below(3) as u32), 1 => AppRes::Deferred, _ => AppRes::Installed }).collect();
     u.instdt = dt(rng);
     u.rebootneeded = rng.chance(2, 3);
